@@ -415,6 +415,9 @@ class Interp:
     def eval(self, e):
         k = e[0]
         if k == 'lit':
+            if e[1] == '!':
+                # a SINGLE literal denotes the nearest binary32 value
+                return '!', to_single(float(e[2]))
             return e[1], e[2]
         if k == 'var':
             name = e[1]
@@ -676,6 +679,24 @@ class Interp:
                     return
                 # 'same': execute the statement again
 
+    def call_gosub(self, label):
+        """GOSUB from any nesting depth of the module-level code: run the
+        module-level statements from the label until RETURN, then continue
+        after the GOSUB statement."""
+        if len(self.frames) != 1:
+            raise ValueError('GOSUB inside a procedure is not in the spec')
+        main = self.prog.main
+        i = self.main_labels[label]
+        while i < len(main):
+            try:
+                self.stmt(main[i])
+                i += 1
+            except _Goto as g:
+                i = self.main_labels[g.label]
+            except _Return:
+                return
+        raise _End()
+
     def run_handler(self):
         main = self.prog.main
         i = self.main_labels[self.on_error] + 1
@@ -739,7 +760,7 @@ class Interp:
         elif k == 'goto':
             raise _Goto(s[1])
         elif k == 'gosub':
-            raise _Gosub(s[1])
+            self.call_gosub(s[1])
         elif k == 'return':
             raise _Return()
         elif k == 'callsub':
